@@ -77,15 +77,23 @@ def scaleOf (unit dimUnit : String) : Option (Option Float) :=
   | .ok k => some k
   | .error _ => none
 
+/-- the unit of a dimension's COORDINATE: the coordinate of a set or data-frame dimension is the element / row index, which has
+    no unit (a data-frame dimension's `unit()` is the unit of the column it points at, i.e. of the labels, and the library never
+    scales a position by it) -/
+def coordUnit (d : D) : String := match d with | .frame .. => "none" | .set .. => "none" | _ => d.unitOrNone
+
 /-- C05.Rel along one dimension: what the region must be, from coordinates alone -/
-def expectDim (d : D) (dataLen : Nat) (rm : RangeMatch) (p e : Float) (hasExtent : Bool) (unit : String) :
+def expectDim (d : D) (dataLen : Nat) (rm : RangeMatch) (p e : Float) (hasExtent : Bool) (unit : String) (pointByEnd : Bool := false) :
     Option (Option (Nat × Nat)) :=
-  match scaleOf unit d.unitOrNone with
+  match scaleOf unit (coordUnit d) with
   | none => none                    -- units not convertible: outside the rule evaluated here
   | some k =>
     let s' := applyScale k p
     let e' := applyScale k (p + e)
-    let point := !hasExtent || e == 0.0
+    -- Tag: a zero extent is a point request.  MultiTag (`pointByEnd`): the region is given by start and end = position + extent as
+    -- computed, and end == start is the point request (C06's theorems are stated that way: an extent so small that the sum rounds
+    -- back to the position does not make an empty half-open interval of a position that lies on a coordinate)
+    let point := !hasExtent || (if pointByEnd then p + e == p else e == 0.0)
     specDim (axisOf d) dataLen (dataLen + 48) (if hasExtent then rm else .inclusive) s' e' point
 
 /-- does the descriptor describe at least `n` data points? (the property speaks about arrays whose
@@ -97,7 +105,7 @@ def covers (d : D) (n : Nat) : Bool :=
   | .set l => l == 0 || l ≥ n
   | .frame r _ => r ≥ n
 
-def relTag (t : TagIn Float) (impl : List String) (exclusiveWithoutExtent : Bool := false) : List (String × Bool) :=
+def relTag (t : TagIn Float) (impl : List String) (exclusiveWithoutExtent : Bool := false) (pointByEnd : Bool := false) : List (String × Bool) :=
   let dimCount := t.dims.length
   if t.extent.length > 0 && t.extent.length != t.position.length then [] else
   if t.shape.length != dimCount then [] else
@@ -110,7 +118,7 @@ def relTag (t : TagIn Float) (impl : List String) (exclusiveWithoutExtent : Bool
     | some d, some n =>
       if i < t.position.length then
         let unit := if t.units.isEmpty then "none" else match t.units[i]? with | some u => u | none => d.unitOrNone
-        expectDim d n t.rm ((t.position[i]?).getD 0.0) (if hasExtent then (t.extent[i]?).getD 0.0 else 0.0) hasExtent unit
+        expectDim d n t.rm ((t.position[i]?).getD 0.0) (if hasExtent then (t.extent[i]?).getD 0.0 else 0.0) hasExtent unit pointByEnd
       else if covers d n then some (some (0, n)) else none     -- dimensions the tag does not specify: all elements
     | _, _ => none
   if exps.any (·.isNone) then [] else
@@ -185,7 +193,7 @@ def relMTagRow (t : MTagIn Float) (i : Nat) (implRow : List String) : List (Stri
     -- a MultiTag pads missing units with "none"; an explicit unit list shorter than the row is outside the rule
     if !t.units.isEmpty && t.units.length < tg.position.length then [] else
     (relTag { tg with units := if t.units.isEmpty then [] else t.units ++ List.replicate (t.dims.length - t.units.length) "none" }
-      implRow (exclusiveWithoutExtent := true)).map fun (n, b) => ("row_" ++ n, b)
+      implRow (exclusiveWithoutExtent := true) (pointByEnd := true)).map fun (n, b) => ("row_" ++ n, b)
 
 def mtagTag (t : MTagIn Float) (sel : String) (r : String) : String :=
   let kinds := String.join (t.dims.map fun d => match d with | .sampled .. => "S" | .range .. => "R" | .set _ => "T" | .frame .. => "F")
@@ -222,7 +230,7 @@ def relSlice (t : SliceIn Float) (impl : List String) : List (String × Bool) :=
       match t.starts[i]?, t.ends[i]? with
       | some s, some e =>
         let unit := match t.units[i]? with | some u => u | none => d.unitOrNone
-        (match scaleOf unit d.unitOrNone with
+        (match scaleOf unit (coordUnit d) with
          | none => none
          | some k => specDim (axisOf d) n (n + 48) t.rm (applyScale k s) (applyScale k e) (s == e))   -- start = end: the single element at or after it
       | none, none => if covers d n then some (some (0, n)) else none
@@ -230,7 +238,7 @@ def relSlice (t : SliceIn Float) (impl : List String) : List (String × Bool) :=
         -- only the start is given: from the start to the last element, which is included
         let unit := match t.units[i]? with | some u => u | none => d.unitOrNone
         if n == 0 || !covers d n then none else
-        (match scaleOf unit d.unitOrNone with
+        (match scaleOf unit (coordUnit d) with
          | none => none
          | some k =>
            let last := (axisOf d).coord (n - 1)
@@ -241,7 +249,7 @@ def relSlice (t : SliceIn Float) (impl : List String) : List (String × Bool) :=
         -- only the end is given: from the first element to the end (closed or half-open as requested)
         let unit := match t.units[i]? with | some u => u | none => d.unitOrNone
         if n == 0 || !covers d n then none else
-        (match scaleOf unit d.unitOrNone with
+        (match scaleOf unit (coordUnit d) with
          | none => none
          | some k =>
            let first := (axisOf d).coord 0
